@@ -313,6 +313,8 @@ def run_spec(spec):
         customs = [n for n in foreign.graph.node if n.domain not in ("", "ai.onnx", "ai.onnx.ml")]
     else:
         foreign, customs = make_foreign(onnx, np, spec)
+    info["foreign_imports"] = [[o.domain, o.version] for o in foreign.opset_import]
+    info["foreign_domains"] = [n.domain for n in foreign.graph.node]
     info["foreign_ops"] = [f"{n.domain}::{n.op_type}" if n.domain else n.op_type for n in all_nodes(foreign.graph)]
     mods = {18: "v18", 19: "v19", 20: "v20", 21: "v21"}
     opm = __import__(f"spox.opset.ai.onnx.{mods[spec['target']]}", fromlist=["x"])
